@@ -1,0 +1,33 @@
+//go:build verif
+
+package serializers
+
+import (
+	cdx "github.com/CycloneDX/cyclonedx-go"
+	"github.com/protobom/protobom/pkg/sbom"
+)
+
+// Export shims for the external verification harness (/verif). Compiled only
+// with -tags verif; no behaviour of the package changes.
+
+func (s *SPDX23) VerifExtRefCategory(e *sbom.ExternalReference) string {
+	return s.extRefCategoryFromProtobomExtRef(e)
+}
+
+func (s *SPDX23) VerifExtRefType(e *sbom.ExternalReference) string {
+	return s.extRefTypeFromProtobomExtRef(e)
+}
+
+func (s *CDX) VerifNodeToComponent(n *sbom.Node) *cdx.Component { return s.nodeToComponent(n) }
+
+func (s *CDX) VerifPurposeToComponentType(p sbom.Purpose) (cdx.ComponentType, error) {
+	return s.purposeToComponentType(p)
+}
+
+func (s *CDX) VerifHashAlgoToCdx(a sbom.HashAlgorithm) (cdx.HashAlgorithm, error) {
+	return s.protoHashAlgoToCdxAlgo(a)
+}
+
+func (s *CDX) VerifExtRefTypeToCdx(t sbom.ExternalReference_ExternalReferenceType) cdx.ExternalReferenceType {
+	return s.protobomExtRefTypeToCdxType(t)
+}
